@@ -476,7 +476,7 @@ def import_dobs_string(content, full_output=False, separator_insertion=True):
                 if separator_insertion is None or separator_insertion is False:
                     pass
                 elif separator_insertion is True:
-                    if rname.startswith(ename):
+                    if rname.startswith(ename) and len(rname) > len(ename):
                         rname = rname[:len(ename)] + '|' + rname[len(ename):]
                 elif isinstance(separator_insertion, int):
                     rname = rname[:separator_insertion] + '|' + rname[separator_insertion:]
